@@ -69,6 +69,9 @@ func (s SessionCrypter) Decrypt(rand io.Reader, r io.Reader) ([]byte, error) {
 	var enc0 cose.Encrypt0[cbor.RawBytes, []byte]
 	switch tag.Num {
 	case cose.Encrypt0TagNum:
+		if s.Cipher.MacAlg != 0 {
+			return nil, fmt.Errorf("cipher suite %d requires a COSE_Mac0 wrapped message", s.ID)
+		}
 		if err := cbor.Unmarshal([]byte(tag.Val), &enc0); err != nil {
 			return nil, fmt.Errorf("error decoding COSE_Encrypt0: %w", err)
 		}
@@ -77,6 +80,16 @@ func (s SessionCrypter) Decrypt(rand io.Reader, r io.Reader) ([]byte, error) {
 		var mac0 cose.Mac0[cose.Encrypt0[cbor.RawBytes, []byte], []byte]
 		if err := cbor.Unmarshal([]byte(tag.Val), &mac0); err != nil {
 			return nil, fmt.Errorf("error decoding COSE_Mac0: %w", err)
+		}
+		if s.Cipher.MacAlg == 0 {
+			return nil, fmt.Errorf("cipher suite %d does not use COSE_Mac0", s.ID)
+		}
+		if mac0.Payload == nil {
+			return nil, fmt.Errorf("COSE_Mac0 has no payload")
+		}
+		var macAlg cose.MacAlgorithm
+		if ok, err := mac0.Protected.Parse(cose.AlgLabel, &macAlg); err != nil || !ok || macAlg != s.Cipher.MacAlg {
+			return nil, fmt.Errorf("COSE_Mac0 algorithm does not match cipher suite %d", s.ID)
 		}
 		expectedDigest := mac0.Value
 		if err := mac0.Digest(s.Cipher.MacAlg, s.SVK, nil, nil); err != nil {
